@@ -214,6 +214,7 @@ class Extraction:
         self.derive = None
         self.header_only = False
         self.sig_only_external = False
+        self.optional = False
         self.no_canary = False
         self.inserts = []   # (where, arg, [Line])
         self.subs = []      # (count, regex, repl, lineno)
@@ -229,6 +230,9 @@ def render_extraction(ex, gsubs, canary=None):
     try:
         item, toks = rustlex.find_item(src, ex.selector)
     except KeyError as e:
+        if ex.optional and "no " in str(e):
+            return [], {"src": ex.src, "selector": ex.selector, "line": 0, "kind": "missing-optional", "name": ex.selector,
+                        "sha256": "", "loops": 0, "assumed": False, "has_contract": False, "annotated_loops": []}
         raise Undecided(str(e))
     except rustlex.LexError as e:
         raise Undecided("lex error in %s: %s" % (ex.src, e))
@@ -666,6 +670,10 @@ def parse_template(path, seen=None):
                         ex.header_only = True
                     elif name == "sig_only_external":
                         ex.sig_only_external = True
+                    elif name == "optional":
+                        # an item (a constant, typically) that the code may stop defining: if it is gone nothing is emitted,
+                        # and whatever still refers to it fails to resolve (undecided) - the rest is verified without it
+                        ex.optional = True
                     elif name == "no_canary":
                         ex.no_canary = True
                     elif name == "sub":
